@@ -1,4 +1,4 @@
-import Proofs.Lemmas.ParserUnique
+import Proofs.Lemmas.ParserAccepted
 import Proofs.Lemmas.Solver
 /-
 C03 — Variable classification, ordering and lag/lead lengths match the script.
@@ -7,10 +7,10 @@ Property theorems only (helper lemmas: `Proofs/Lemmas/Parser*.lean`).  Everythin
 scripts `S : List Stmt` (a statement = the terms `parse_equation_terms` returns + the opaque `equation` / `code`
 strings; no lexing is involved), all option sets and all span lengths.
 
-Guards used (both are facts about what the regular-expression level hands over, see `ASSUMPTIONS` of the check):
+Guard used (a fact about what the regular-expression level hands over, see `ASSUMPTIONS` of the check):
   `WellIndexed S`      function/keyword terms carry no index, every other term carries an `int` or `str` one
-  `NoFunctionClash S`  no name is used both as a called function and as a variable/parameter/error
-                       (the C01 grammar excludes it; `classify_spec_false_at_witness` shows what the code does otherwise)
+A name used both as a called function and as a variable is REJECTED by the code (ParserError inside one statement
+since fix 3f601b8, SymbolError across statements), so no guard is needed for it: `accepted_no_function_clash`.
 -/
 set_option linter.unusedSimpArgs false
 set_option linter.unusedVariables false
@@ -32,22 +32,6 @@ theorem promote_spec (a b : TermType) (ha : isVarKind a = true) (hb : isVarKind 
 
 example : promote .exogenous .endogenous = .endogenous ∧ promote .endogenous .exogenous = .endogenous ∧
     promote .variable .exogenous = .exogenous := by decide
-
-theorem typeLe_of_endogenous {c : TermType} : TypeLe .endogenous c → c = .endogenous := by
-  cases c <;> decide
-theorem typeLe_of_parameter {c : TermType} : TypeLe .parameter c → c = .parameter := by
-  cases c <;> decide
-theorem typeLe_of_error {c : TermType} : TypeLe .error c → c = .error := by
-  cases c <;> decide
-theorem typeLe_of_exogenous {c : TermType} : TypeLe .exogenous c → c = .exogenous ∨ c = .endogenous := by
-  cases c <;> decide
-theorem typeLe_to_exogenous {s : TermType} : TypeLe s .exogenous → s ≠ .endogenous := by
-  cases s <;> decide
-theorem typeLe_indexed {s c : TermType} : TypeLe s c → isIndexed s = true → isIndexed c = true := by
-  cases s <;> cases c <;> decide
-theorem typeLe_conflict {a b c : TermType} : TypeLe a c → TypeLe b c → a ≠ b →
-    isVarKind a = true ∧ isVarKind b = true := by
-  cases a <;> cases b <;> cases c <;> decide
 
 /-! ### `parse_equation_terms`: a variable on the left-hand side is ENDOGENOUS, on the right-hand side EXOGENOUS -/
 
@@ -100,20 +84,6 @@ theorem mem_namesOfType {ty : TermType} {syms : List Symbol} {k : Option String}
   · rintro ⟨c, hc, ht, rfl⟩
     exact List.mem_map_of_mem (List.mem_filter.2 ⟨hc, by simpa using ht⟩)
 
-/-- What an accepted script looks like (from `parseModel_char`), in the form the theorems below use. -/
-theorem accepted_char {S : List Stmt} {syms : List Symbol} (h : parseModel S = .ok syms)
-    (w1 : WellIndexed S) (w2 : NoFunctionClash S) :
-    ∃ D V, syms = D ++ V ∧ (∀ v ∈ V, v.name = none ∧ v.type = .verbatim) ∧
-      keys D = firstApp ((scriptOcc S).map (·.name)) ∧
-      (∀ c ∈ D, Summ c ((scriptOcc S).filter (fun s => s.name = c.name))) ∧
-      (∀ s ∈ scriptOcc S, ∃ c ∈ D, c.name = s.name) := by
-  obtain ⟨D, V, h1, h2, h3, h4⟩ := parseModel_char h (stmtOK_of_guards w1 w2)
-  refine ⟨D, V, h1, h2, h3, h4, ?_⟩
-  intro s hs
-  have : s.name ∈ keys D := by rw [h3]; exact (mem_firstApp _ _).2 (List.mem_map_of_mem hs)
-  obtain ⟨c, hc, hcn⟩ := List.mem_map.1 this
-  exact ⟨c, hc, hcn⟩
-
 /-- Entry of a given type and name ↔ class-list membership, for the non-verbatim classes. -/
 theorem mem_class {D V : List Symbol} {ty : TermType} (hty : ty ≠ .verbatim)
     (hV : ∀ v ∈ V, v.name = none ∧ v.type = .verbatim) (x : String) :
@@ -132,12 +102,12 @@ theorem mem_class {D V : List Symbol} {ty : TermType} (hty : ty ≠ .verbatim)
     ENDOGENOUS = left-hand-side variable term), a parameter iff it is written in braces, an error iff written in
     angle brackets, and exogenous iff it occurs as a variable and no statement assigns it. -/
 theorem classify_spec {S : List Stmt} {syms : List Symbol} (h : parseModel S = .ok syms)
-    (w1 : WellIndexed S) (w2 : NoFunctionClash S) (x : String) :
+    (w1 : WellIndexed S) (x : String) :
     (some x ∈ namesOfType .endogenous syms ↔ Occurs S x .endogenous) ∧
     (some x ∈ namesOfType .parameter syms ↔ Occurs S x .parameter) ∧
     (some x ∈ namesOfType .error syms ↔ Occurs S x .error) ∧
     (some x ∈ namesOfType .exogenous syms ↔ Occurs S x .exogenous ∧ ¬ Occurs S x .endogenous) := by
-  obtain ⟨D, V, rfl, hV, hk, hS, hE⟩ := accepted_char h w1 w2
+  obtain ⟨D, V, rfl, hV, hk, hS, hE, _⟩ := accepted_char h w1
   simp only [occurs_iff S x _ (by decide : TermType.endogenous ≠ .verbatim),
     occurs_iff S x _ (by decide : TermType.parameter ≠ .verbatim),
     occurs_iff S x _ (by decide : TermType.error ≠ .verbatim),
@@ -203,13 +173,13 @@ def DoubleDef (S : List Stmt) : Prop :=
 
 /-- **classify_rejects.**  A script in which a name is used both as a variable and as a parameter/error (or as a
     parameter and an error), or in which one name is defined by two different equations, is not accepted. -/
-theorem classify_rejects {S : List Stmt} (w1 : WellIndexed S) (w2 : NoFunctionClash S)
+theorem classify_rejects {S : List Stmt} (w1 : WellIndexed S)
     (hbad : KindConflict S ∨ DoubleDef S) : ∃ e, parseModel S = .error e := by
   cases h : parseModel S with
   | error e => exact ⟨e, rfl⟩
   | ok syms =>
     exfalso
-    obtain ⟨D, V, rfl, hV, hk, hS, hE⟩ := accepted_char h w1 w2
+    obtain ⟨D, V, rfl, hV, hk, hS, hE, _⟩ := accepted_char h w1
     rcases hbad with ⟨s1, h1, s2, h2, hn, ht, hv⟩ | ⟨s1, h1, s2, h2, hn, hd⟩
     · obtain ⟨c, hc, hcn⟩ := hE s1 h1
       have l1 := (hS c hc).typeLe s1 (List.mem_filter.2 ⟨h1, by simp [hcn]⟩)
@@ -226,43 +196,129 @@ theorem classify_rejects {S : List Stmt} (w1 : WellIndexed S) (w2 : NoFunctionCl
         have b := (hS c hc).codeAll s2 m2 c2 hc2
         rw [a] at b; exact hne (Option.some.inj b)
 
-/-- **Which error.**  Under the guards a rejected script raises one of the parser's own two errors — SymbolError
-    together with a kind conflict, or ParserError together with a double definition. -/
-theorem rejection_class {S : List Stmt} {e : Err} (h : parseModel S = .error e)
-    (w1 : WellIndexed S) (w2 : NoFunctionClash S) :
-    (e = .symbolError ∧ KindConflict S) ∨ (e = .parserError ∧ DoubleDef S) :=
-  parseModel_error_class h w1 w2
+/-- **Which error.**  A rejected script raises one of the parser's own two errors — SymbolError together with a kind
+    conflict, or ParserError together with a double definition or a defective statement (a function/variable clash
+    inside it, or not exactly one assigned variable). -/
+theorem rejection_class {S : List Stmt} {e : Err} (h : parseModel S = .error e) (w1 : WellIndexed S) :
+    (e = .symbolError ∧ KindConflict S) ∨ (e = .parserError ∧ (DoubleDef S ∨ BadStmt S)) :=
+  parseModel_error_class h w1
 
-/-- A script is accepted exactly when it has neither defect. -/
-theorem accepted_iff {S : List Stmt} (w1 : WellIndexed S) (w2 : NoFunctionClash S) :
-    (∃ syms, parseModel S = .ok syms) ↔ (¬ KindConflict S ∧ ¬ DoubleDef S) := by
+theorem kindConflict_of_stmtClash {S : List Stmt} {stmt : Stmt} (hst : stmt ∈ S) (h : StmtClash stmt) :
+    KindConflict S := by
+  obtain ⟨s1, h1, s2, h2, hf, hnf, hn⟩ := h
+  refine ⟨s1, stmtOcc_subset hst s1 h1, s2, stmtOcc_subset hst s2 h2, hn, by rw [hf]; exact fun e => hnf e.symm, ?_⟩
+  rw [hf]; intro h; exact absurd h.1 (by decide)
+
+/-- A script is accepted exactly when it has none of the defects. -/
+theorem accepted_iff {S : List Stmt} (w1 : WellIndexed S) :
+    (∃ syms, parseModel S = .ok syms) ↔ (¬ KindConflict S ∧ ¬ DoubleDef S ∧ ∀ stmt ∈ S, DefinesOne stmt) := by
   constructor
   · rintro ⟨syms, h⟩
-    constructor
-    · intro hk; obtain ⟨e, he⟩ := classify_rejects w1 w2 (Or.inl hk); rw [h] at he; cases he
-    · intro hd; obtain ⟨e, he⟩ := classify_rejects w1 w2 (Or.inr hd); rw [h] at he; cases he
-  · rintro ⟨hk, hd⟩
+    refine ⟨?_, ?_, ?_⟩
+    · intro hk; obtain ⟨e, he⟩ := classify_rejects w1 (Or.inl hk); rw [h] at he; cases he
+    · intro hd; obtain ⟨e, he⟩ := classify_rejects w1 (Or.inr hd); rw [h] at he; cases he
+    · intro stmt hst
+      cases stmt with
+      | verb _ _ => trivial
+      | eqn ts q c =>
+        unfold parseModel at h
+        cases hm : mapE stmtSymbols S with
+        | error x => simp [hm] at h
+        | ok groups =>
+          obtain ⟨G, _, hG⟩ := (mapE_ok_mem hm).2 _ hst
+          have hok := stmtOK_of_guards w1 _ hst
+          simp only [stmtSymbols] at hG
+          obtain ⟨hf, hone⟩ := symbolsOfTerms_ok hok hG
+          show (definedNames (.eqn ts q c)).length = 1
+          rw [← defined_count hf]; exact hone
+  · rintro ⟨hk, hd, hone⟩
     cases h : parseModel S with
     | ok syms => exact ⟨syms, rfl⟩
     | error e =>
-      rcases rejection_class h w1 w2 with ⟨_, h1⟩ | ⟨_, h1⟩
+      rcases rejection_class h w1 with ⟨_, h1⟩ | ⟨_, h1 | ⟨stmt, hst, h1 | h1⟩⟩
       · exact absurd h1 hk
       · exact absurd h1 hd
+      · exact absurd (kindConflict_of_stmtClash hst h1) hk
+      · exact absurd (hone stmt hst) h1
 
-/-- **rejects_symbolError.**  A name used as variable and as parameter/error (or as parameter and error), and no
-    double definition: the script is rejected with SymbolError. -/
-theorem rejects_symbolError {S : List Stmt} (w1 : WellIndexed S) (w2 : NoFunctionClash S)
-    (hk : KindConflict S) (hd : ¬ DoubleDef S) : parseModel S = .error .symbolError := by
-  obtain ⟨e, he⟩ := classify_rejects w1 w2 (Or.inl hk)
-  rcases rejection_class he w1 w2 with ⟨rfl, _⟩ | ⟨_, h1⟩
+/-- **accepted_no_function_clash.**  In every accepted script no name is both a called function and a variable,
+    parameter or error (this was a *guard* before fix 3f601b8; now the code rejects the clash). -/
+theorem accepted_no_function_clash {S : List Stmt} {syms : List Symbol} (h : parseModel S = .ok syms)
+    (w1 : WellIndexed S) : NoFunctionClash S := by
+  intro s1 h1 s2 h2 hn hf
+  by_cases h2f : s2.type = .function
+  · exact h2f
+  · exfalso
+    obtain ⟨e, he⟩ := classify_rejects w1 (Or.inl ⟨s1, h1, s2, h2, hn, by rw [hf]; exact fun e => h2f e.symm,
+      by rw [hf]; intro h; exact absurd h.1 (by decide)⟩)
+    rw [h] at he; cases he
+
+/-- **function_clash_rejected.**  A statement in which a name is both a called function and a variable is never
+    accepted; the two steps that detect it raise ParserError (`stepTerm_*` below). -/
+theorem function_clash_rejected {e c : String} {ts : List Parser.Term}
+    (w : ∀ t ∈ ts, t.type = .function → t.index = .none) (hclash : ClashT ts) :
+    ∃ x, symbolsOfTerms e c ts = .error x := by
+  rcases symbolsOfTerms_cases e c ts w with h | ⟨h, _⟩
+  · cases hf : foldE addSym [] (termSyms e c ts) with
+    | error x => exact ⟨x, by rw [h, hf]⟩
+    | ok G =>
+      exfalso
+      obtain ⟨_, _, hs, hc⟩ := fold_from_empty hf
+      obtain ⟨t1, m1, t2, m2, hfn, hnf, hnv, hn⟩ := hclash
+      have o1 := mem_termSyms (e := e) (c := c) m1 (by rw [hfn]; simp)
+      have o2 := mem_termSyms (e := e) (c := c) m2 hnv
+      obtain ⟨g, hg, hgn⟩ := hc _ o1
+      have l1 := (hs g hg).typeLe _ (List.mem_filter.2 ⟨o1, by simp [hgn]⟩)
+      have l2 := (hs g hg).typeLe _ (List.mem_filter.2 ⟨o2, by simp [hgn, termSymbol_name, hn]⟩)
+      simp only [termSymbol_type] at l1 l2
+      have := typeLe_conflict l1 l2 (by rw [hfn]; exact fun e => hnf e.symm)
+      rw [hfn] at this; exact absurd this.1 (by decide)
+  · exact ⟨_, h⟩
+
+/-- The function step: a variable of the same name is already a symbol ⇒ ParserError. -/
+theorem stepTerm_function_after_variable (e c : String) (st : EqState) (t : Parser.Term) (y : Symbol)
+    (hf : t.type = .function) (h1 : findSym (some t.name) st.functions = none)
+    (h2 : findSym (some t.name) st.symbols = some y) : stepTerm e c st t = .error .parserError := by
+  unfold stepTerm; simp [hf, h1, h2]
+
+/-- The variable step: a function of the same name was called earlier in the statement ⇒ ParserError. -/
+theorem stepTerm_variable_after_function (e c : String) (st : EqState) (t : Parser.Term) (y : Symbol)
+    (hv : t.type ≠ .verbatim) (hf : t.type ≠ .function) (h1 : findSym (some t.name) st.functions = some y) :
+    stepTerm e c st t = .error .parserError := by
+  unfold stepTerm; simp [hv, hf, h1]
+
+example : symbolsOfTerms "e" "c" [⟨"Y", .endogenous, .int 0⟩, ⟨"log", .exogenous, .int 0⟩, ⟨"log", .function, .none⟩]
+    = .error .parserError := by rfl
+example : symbolsOfTerms "e" "c" [⟨"Y", .endogenous, .int 0⟩, ⟨"log", .function, .none⟩, ⟨"log", .exogenous, .int 0⟩]
+    = .error .parserError := by rfl
+/-- `{a} = X`, `1 = X`: no assigned variable ⇒ ParserError (fix d65c5fa). -/
+example : symbolsOfTerms "e" "c" [⟨"a", .parameter, .int 0⟩, ⟨"X", .exogenous, .int 0⟩] = .error .parserError := by rfl
+example : symbolsOfTerms "e" "c" [⟨"X", .exogenous, .int 0⟩] = .error .parserError := by rfl
+
+/-- **rejects_symbolError.**  A name used as variable and as parameter/error (or as parameter and error, or as a
+    function in one statement and a variable in another), no double definition and no defective statement: the script
+    is rejected with SymbolError. -/
+theorem rejects_symbolError {S : List Stmt} (w1 : WellIndexed S)
+    (hk : KindConflict S) (hd : ¬ DoubleDef S) (hb : ¬ BadStmt S) : parseModel S = .error .symbolError := by
+  obtain ⟨e, he⟩ := classify_rejects w1 (Or.inl hk)
+  rcases rejection_class he w1 with ⟨rfl, _⟩ | ⟨_, h1 | h1⟩
   · exact he
   · exact absurd h1 hd
+  · exact absurd h1 hb
 
-/-- **rejects_parserError.**  Two different equations for one name, and no kind conflict: rejected with ParserError. -/
-theorem rejects_parserError {S : List Stmt} (w1 : WellIndexed S) (w2 : NoFunctionClash S)
-    (hd : DoubleDef S) (hk : ¬ KindConflict S) : parseModel S = .error .parserError := by
-  obtain ⟨e, he⟩ := classify_rejects w1 w2 (Or.inr hd)
-  rcases rejection_class he w1 w2 with ⟨_, h1⟩ | ⟨rfl, _⟩
+/-- **rejects_parserError.**  Two different equations for one name — or a statement with a function/variable clash,
+    or one that does not assign exactly one variable — and no kind conflict: rejected with ParserError. -/
+theorem rejects_parserError {S : List Stmt} (w1 : WellIndexed S)
+    (hd : DoubleDef S ∨ ∃ stmt ∈ S, ¬ DefinesOne stmt) (hk : ¬ KindConflict S) :
+    parseModel S = .error .parserError := by
+  have hrej : ∃ e, parseModel S = .error e := by
+    rcases hd with hd | ⟨stmt, hst, hno⟩
+    · exact classify_rejects w1 (Or.inr hd)
+    · cases h : parseModel S with
+      | error e => exact ⟨e, rfl⟩
+      | ok syms => exact absurd (((accepted_iff w1).1 ⟨syms, h⟩).2.2 stmt hst) hno
+  obtain ⟨e, he⟩ := hrej
+  rcases rejection_class he w1 with ⟨_, h1⟩ | ⟨rfl, _⟩
   · exact absurd h1 hk
   · exact he
 
@@ -272,7 +328,7 @@ theorem scriptOcc_append (S T : List Stmt) : scriptOcc (S ++ T) = scriptOcc S ++
 /-- **identical_duplicates_accepted.**  Repeating an equation statement that the script already contains changes
     nothing: the script is still accepted, with the same named symbols in the same order (each name once). -/
 theorem identical_duplicates_accepted {S : List Stmt} {syms : List Symbol} {ts : List Parser.Term} {q c : String}
-    (h : parseModel S = .ok syms) (w1 : WellIndexed S) (w2 : NoFunctionClash S) (hdup : Stmt.eqn ts q c ∈ S) :
+    (h : parseModel S = .ok syms) (w1 : WellIndexed S) (hdup : Stmt.eqn ts q c ∈ S) :
     ∃ syms', parseModel (S ++ [.eqn ts q c]) = .ok syms' ∧
       syms'.filter (fun s => s.name.isSome) = syms.filter (fun s => s.name.isSome) := by
   have hmem : ∀ s, s ∈ scriptOcc (S ++ [.eqn ts q c]) ↔ s ∈ scriptOcc S := by
@@ -284,18 +340,20 @@ theorem identical_duplicates_accepted {S : List Stmt} {syms : List Symbol} {ts :
         exact stmtOcc_subset hdup s hs
     · intro hs; exact List.mem_append_left _ hs
   have w1' : WellIndexed (S ++ [.eqn ts q c]) := fun s hs => w1 s ((hmem s).1 hs)
-  have w2' : NoFunctionClash (S ++ [.eqn ts q c]) :=
-    fun s1 h1 s2 h2 => w2 s1 ((hmem s1).1 h1) s2 ((hmem s2).1 h2)
-  obtain ⟨hk, hd⟩ := (accepted_iff w1 w2).1 ⟨syms, h⟩
+  obtain ⟨hk, hd, hone⟩ := (accepted_iff w1).1 ⟨syms, h⟩
   have hacc : ∃ syms', parseModel (S ++ [.eqn ts q c]) = .ok syms' := by
-    apply (accepted_iff w1' w2').2
-    constructor
+    apply (accepted_iff w1').2
+    refine ⟨?_, ?_, ?_⟩
     · rintro ⟨s1, h1, s2, h2, r⟩; exact hk ⟨s1, (hmem s1).1 h1, s2, (hmem s2).1 h2, r⟩
     · rintro ⟨s1, h1, s2, h2, r⟩; exact hd ⟨s1, (hmem s1).1 h1, s2, (hmem s2).1 h2, r⟩
+    · intro stmt hst
+      rcases List.mem_append.1 hst with hst | hst
+      · exact hone stmt hst
+      · simp at hst; subst hst; exact hone _ hdup
   obtain ⟨syms', h'⟩ := hacc
   refine ⟨syms', h', ?_⟩
-  obtain ⟨D, V, rfl, hV, hkD, hS, _⟩ := accepted_char h w1 w2
-  obtain ⟨D', V', rfl, hV', hkD', hS', _⟩ := accepted_char h' w1' w2'
+  obtain ⟨D, V, rfl, hV, hkD, hS, _, _⟩ := accepted_char h w1
+  obtain ⟨D', V', rfl, hV', hkD', hS', _, _⟩ := accepted_char h' w1'
   have named : ∀ (D V : List Symbol) (S : List Stmt), (∀ v ∈ V, v.name = none ∧ v.type = .verbatim) →
       keys D = firstApp ((scriptOcc S).map (·.name)) →
       (D ++ V).filter (fun s => s.name.isSome) = D := by
@@ -414,41 +472,6 @@ example : (parseModel [.eqn [⟨"Y", .endogenous, .int 0⟩, ⟨"X", .exogenous,
                        .eqn [⟨"Y", .endogenous, .int 0⟩, ⟨"X", .exogenous, .int 0⟩] "Y[t] = X[t]" "c1"]).toOption.map
       (fun syms => syms.map (·.name)) = some [some "Y", some "X"] := by rfl
 
-/-! ### What the guard `NoFunctionClash` excludes -/
-
-/-- `Y = log + log(X)`: the variable `log` is first entered as EXOGENOUS and then *overwritten* by the function symbol
-    (`symbols[name] = symbol`). -/
-def clashWitness : List Stmt :=
-  [.eqn [⟨"Y", .endogenous, .int 0⟩, ⟨"log", .exogenous, .int 0⟩, ⟨"log", .function, .none⟩, ⟨"X", .exogenous, .int 0⟩]
-     "Y[t] = log[t] + log(X[t])" "self._Y[t] = self._log[t] + np.log(self._X[t])"]
-
-/-- **classify_spec without the guard is false**: the script is accepted, `log` occurs as a variable that no
-    statement assigns, yet it is in no class list (the generated code would read `self._log`). -/
-theorem classify_spec_false_at_witness :
-    ∃ syms, parseModel clashWitness = .ok syms ∧ WellIndexed clashWitness ∧ ¬ NoFunctionClash clashWitness ∧
-      Occurs clashWitness "log" .exogenous ∧ ¬ Occurs clashWitness "log" .endogenous ∧
-      some "log" ∉ namesOfType .exogenous syms ∧
-      some "log" ∉ namesOfType .endogenous syms ++ namesOfType .exogenous syms ++ namesOfType .parameter syms
-        ++ namesOfType .error syms := by
-  refine ⟨_, rfl, ?_, ?_, ?_, ?_, ?_, ?_⟩
-  · intro s hs
-    simp [scriptOcc, clashWitness, stmtOcc, termSyms, termSymbol] at hs
-    rcases hs with rfl | rfl | rfl | rfl <;> decide
-  · intro h
-    have := h ⟨some "log", .function, .none, .none, none, none⟩
-      (by simp [scriptOcc, clashWitness, stmtOcc, termSyms, termSymbol])
-      ⟨some "log", .exogenous, .int 0, .int 0, none, none⟩
-      (by simp [scriptOcc, clashWitness, stmtOcc, termSyms, termSymbol]) rfl rfl
-    cases this
-  · exact ⟨_, _, _, List.mem_singleton.2 rfl, ⟨"log", .exogenous, .int 0⟩, by simp, rfl, rfl⟩
-  · rintro ⟨ts, e, c, hst, t, ht, hn, htt⟩
-    simp [clashWitness] at hst
-    obtain ⟨rfl, _, _⟩ := hst
-    simp at ht
-    rcases ht with rfl | rfl | rfl | rfl <;> simp at hn htt
-  · decide
-  · decide
-
 /-! ### Ordering and partition -/
 
 /-- Names of the script's terms in script order (`some name` for every non-verbatim term). -/
@@ -458,21 +481,21 @@ def scriptNames (S : List Stmt) : List (Option String) := (scriptOcc S).map (·.
     order of first appearance (Python-dict insertion order: re-assignment keeps the original slot); nameless
     verbatim symbols follow. -/
 theorem symbol_order {S : List Stmt} {syms : List Symbol} (h : parseModel S = .ok syms)
-    (w1 : WellIndexed S) (w2 : NoFunctionClash S) :
+    (w1 : WellIndexed S) :
     ∃ D V, syms = D ++ V ∧ keys D = firstApp (scriptNames S) ∧ (keys D).Nodup ∧
       (∀ v ∈ V, v.name = none ∧ v.type = .verbatim) := by
-  obtain ⟨D, V, h1, hV, hk, _, _⟩ := accepted_char h w1 w2
+  obtain ⟨D, V, h1, hV, hk, _, _, _⟩ := accepted_char h w1
   exact ⟨D, V, h1, hk, by rw [hk]; exact nodup_firstApp _, hV⟩
 
 /-- **names_partition.**  `NAMES = ENDOGENOUS ++ EXOGENOUS ++ PARAMETERS ++ ERRORS`, no name twice, and every class
     lists its names in order of first appearance in the script. -/
 theorem names_partition {S : List Stmt} {syms : List Symbol} {o : BuildOpts} {L : Lists}
-    (h : parseModel S = .ok syms) (w1 : WellIndexed S) (w2 : NoFunctionClash S) (hb : buildLists syms o = .ok L) :
+    (h : parseModel S = .ok syms) (w1 : WellIndexed S) (hb : buildLists syms o = .ok L) :
     L.names = L.endogenous ++ L.exogenous ++ L.parameters ++ L.errors ∧ L.check = L.endogenous ∧
     L.names.Nodup ∧
     L.endogenous.Sublist (firstApp (scriptNames S)) ∧ L.exogenous.Sublist (firstApp (scriptNames S)) ∧
     L.parameters.Sublist (firstApp (scriptNames S)) ∧ L.errors.Sublist (firstApp (scriptNames S)) := by
-  obtain ⟨D, V, rfl, hk, hnd, hV⟩ := symbol_order h w1 w2
+  obtain ⟨D, V, rfl, hk, hnd, hV⟩ := symbol_order h w1
   have hL : L.endogenous = namesOfType .endogenous D ∧ L.exogenous = namesOfType .exogenous D ∧
       L.parameters = namesOfType .parameter D ∧ L.errors = namesOfType .error D ∧
       L.names = L.endogenous ++ L.exogenous ++ L.parameters ++ L.errors ∧ L.check = L.endogenous := by
@@ -517,10 +540,10 @@ theorem names_partition {S : List Stmt} {syms : List Symbol} {o : BuildOpts} {L 
 /-- **lags_leads_spec.**  Without `lags=` / `leads=`: `LAGS = max(0 :: −offsets)` and `LEADS = max(0 :: offsets)` over
     every integer index written anywhere in the script (a string index contributes nothing, i.e. 0). -/
 theorem lags_leads_spec {S : List Stmt} {syms : List Symbol} (h : parseModel S = .ok syms)
-    (w1 : WellIndexed S) (w2 : NoFunctionClash S) :
+    (w1 : WellIndexed S) :
     autoLags syms = .ok (maxList 0 ((scriptOffsets S).map (-·))) ∧
     autoLeads syms = .ok (maxList 0 (scriptOffsets S)) := by
-  obtain ⟨D, V, rfl, hV, hk, hS, hE⟩ := accepted_char h w1 w2
+  obtain ⟨D, V, rfl, hV, hk, hS, hE, _⟩ := accepted_char h w1
   -- every indexed entry holds integers, bounded by / attained among the offsets of its own name
   have entry : ∀ c ∈ nonIndexed D,
       (∃ m, c.lags = .int m ∧ m ≤ 0 ∧ (∀ s ∈ scriptOcc S, s.name = c.name → ∀ i, s.lags = .int i → m ≤ i) ∧
